@@ -305,20 +305,18 @@ def uf2(name, a, b):
     return UF2[name](to_real(a), to_real(b))
 
 
-def has_var(t, _memo={}):
+def has_var(t, memo=None):
+    """does t contain a loose bound variable? (memo must not outlive the terms: ids are recycled)"""
+    memo = {} if memo is None else memo
     k = t.get_id()
-    if k in _memo:
-        return _memo[k]
+    if k in memo:
+        return memo[k]
     r = False
     if z3.is_var(t):
         r = True
     elif z3.is_app(t):
-        r = any(has_var(c) for c in t.children())
-    elif z3.is_quantifier(t):
-        r = False   # closed from the outside (its own variables are bound inside)
-    _memo[k] = r
-    if len(_memo) > 500000:
-        _memo.clear()
+        r = any(has_var(c, memo) for c in t.children())
+    memo[k] = r
     return r
 
 
@@ -327,7 +325,8 @@ def ground_subterms(ts):
     seen = {}
     for t in ts:
         subterms(t, seen)
-    return {k: x for k, x in seen.items() if not has_var(x)}
+    memo = {}
+    return {k: x for k, x in seen.items() if not has_var(x, memo)}
 
 
 def skolemize(goal):
@@ -775,4 +774,37 @@ def _abstract_nonlinear(fs):
                 continue
             _signed.add(t.get_id())
         out += extra
+    return out
+
+
+def instantiate_quantified(fs, cap=600):
+    """Ground instances of the universally quantified formulas in `fs` at the integer index terms
+    that occur as arguments of array / function applications (sound: instances of hypotheses)."""
+    idx = {}
+    for t in ground_subterms(fs).values():
+        if z3.is_app(t) and t.num_args() > 0 and t.decl().kind() == z3.Z3_OP_UNINTERPRETED:
+            for a in t.children():
+                if z3.is_int(a):
+                    idx[a.get_id()] = a
+    terms = list(idx.values())
+    out = []
+    for f in fs:
+        if not (z3.is_quantifier(f) and f.is_forall()):
+            continue
+        n = f.num_vars()
+        if n > 2 or any(f.var_sort(i) != IntS for i in range(n)):
+            continue
+        body = f.body()
+        if n == 1:
+            for t in terms:
+                out.append(z3.substitute_vars(body, t))
+                if len(out) >= cap:
+                    return out
+        else:
+            small = terms[:12]
+            for t1 in small:
+                for t2 in small:
+                    out.append(z3.substitute_vars(body, t1, t2))
+                    if len(out) >= cap:
+                        return out
     return out
